@@ -303,6 +303,110 @@ sys.exit(1 if (bool(c1) != (w["d"] < 2.4) or bool(c2) != (w["d"] < 2.4)) else 0)
 '''
 
 
+# ------------------------------------------------------------------------------------------ residue grouping (concretising mode)
+CH, NUM, IC = ["A", "B"], [10, 11], ["", "A"]
+ANAMES = ["P", "C1'", "N9", "C4"]
+
+
+def emit_pdb(table):
+    out = []
+    for k, (c, n, i) in enumerate(table):
+        nm = ANAMES[k]
+        out.append("ATOM  %5d %-4s %3s %s%4d%1s   %8.3f%8.3f%8.3f%6.2f%6.2f          %2s  " %
+                   (k + 1, (" " + nm) if len(nm) < 4 else nm, "G", CH[c], NUM[n], IC[i], 1.0 + 3 * k, 2.0, 3.0, 1.0, 0.0, nm[0]))
+    return "\n".join(out) + "\nEND\n"
+
+
+def emit_cif(table):
+    attrs = ["group_PDB", "id", "type_symbol", "label_atom_id", "label_alt_id", "label_comp_id", "label_asym_id", "label_entity_id", "label_seq_id",
+             "pdbx_PDB_ins_code", "Cartn_x", "Cartn_y", "Cartn_z", "occupancy", "B_iso_or_equiv", "pdbx_formal_charge", "auth_seq_id", "auth_comp_id",
+             "auth_asym_id", "auth_atom_id", "pdbx_PDB_model_num"]
+    out = ["data_verif", "loop_"] + ["_atom_site." + a for a in attrs]
+    for k, (c, n, i) in enumerate(table):
+        nm = ANAMES[k]
+        q = '"%s"' % nm if "'" in nm else nm
+        out.append(" ".join(["ATOM", str(k + 1), nm[0], q, ".", "G", CH[c], "1", str(NUM[n]), IC[i] or "?", "%.3f" % (1.0 + 3 * k), "2.000", "3.000",
+                             "1.00", "0.00", "?", str(NUM[n]), "G", CH[c], q, "1"]))
+    return "\n".join(out) + "\n#\n"
+
+
+def body_groups(table):
+    """both reader generations, both formats, on one small atom table: same residues with the same atoms (real pandas / mmcif, natively)"""
+    import io
+    import os
+    import tempfile
+    from harness.e1_common import log, known_keys
+    from rnapolis.parser import read_3d_structure
+    from rnapolis.parser_v2 import parse_pdb_atoms, parse_cif_atoms
+    from rnapolis.tertiary_v2 import Structure
+    table = [tuple(t) for t in table]
+    views = {}
+    problems = []
+    try:
+        pdb, cif = emit_pdb(table), emit_cif(table)
+        f = io.StringIO(pdb)
+        f.name = "x.pdb"
+        views["v1/pdb"] = sorted((r.auth.chain, r.auth.number, r.icode, tuple(a.name for a in r.atoms)) for r in read_3d_structure(f).residues)
+        d = tempfile.mkdtemp(prefix="verif_c15_")
+        p = os.path.join(d, "x.cif")
+        with open(p, "w") as fh:
+            fh.write(cif)
+        with open(p) as fh:
+            views["v1/cif"] = sorted((r.auth.chain, r.auth.number, r.icode, tuple(a.name for a in r.atoms)) for r in read_3d_structure(fh).residues)
+        os.remove(p)
+        os.rmdir(d)
+        for tag, df, col in (("v2/pdb", parse_pdb_atoms(pdb), "name"), ("v2/cif", parse_cif_atoms(cif), "auth_atom_id")):
+            views[tag] = sorted((r.chain_id, r.residue_number, r.insertion_code, tuple(r.atoms[col].tolist())) for r in Structure(df).residues)
+    except Exception as e:  # noqa: BLE001
+        problems.append(f"exception {type(e).__name__}: {e}")
+    want = []
+    for k, (c, n, i) in enumerate(table):
+        key = (CH[c], NUM[n], IC[i] or None)
+        if want and want[-1][:3] == key:
+            want[-1] = key + (want[-1][3] + (ANAMES[k],),)
+        else:
+            want.append(key + ((ANAMES[k],),))
+    want = sorted(want)
+    for tag, v in views.items():
+        if v != want:
+            problems.append(f"{tag} reports residues {v}, the table has {want}")
+    keys = ["readers:residue-grouping"] if problems else []
+    ok = all(k in known_keys(PID) for k in keys)
+    log({"p": [list(t) for t in table], "problems": problems[:3], "keys": keys, "kind": "groups"})
+    return ok
+
+
+def replay(rec):
+    import harness.e1_common as ec
+    saved = ec.known_keys
+    ec.known_keys = lambda pid: set()
+    try:
+        return body_groups(rec["p"])
+    finally:
+        ec.known_keys = saved
+
+
+def groups_inputs(natoms):
+    """AllSAT: identity (chain, number, icode) per atom over 2x2x2 values, residues contiguous in the file"""
+    import z3
+    from vlib import allsat
+    vs = []
+    cons = []
+    for k in range(natoms):
+        c, n, i = z3.Int(f"c{k}"), z3.Int(f"n{k}"), z3.Int(f"i{k}")
+        vs += [c, n, i]
+        cons += [c >= 0, c <= 1, n >= 0, n <= 1, i >= 0, i <= 1]
+
+    def same(a, b):
+        return z3.And(*[vs[3 * a + t] == vs[3 * b + t] for t in range(3)])
+    for a in range(natoms):
+        for b in range(a + 2, natoms):
+            for m in range(a + 1, b):
+                cons.append(z3.Implies(same(a, b), same(a, m)))
+    models, nq, dt = allsat.allsat(vs, cons)
+    return [([tuple(m[3 * k:3 * k + 3]) for k in range(natoms)],) for m in models], nq, dt
+
+
 def _dispatch(spec):
     kind, sp = spec
     return {"pdb": job_pdb, "cif": job_cif, "conn": job_conn}[kind](sp)
@@ -339,12 +443,23 @@ def run(rep, tier):
             else:
                 rep.add(undecided=1)
         rep.sample({"group": r["name"], "paths": r["paths"], "verdicts": [(v["ob"][:80], v["v"]) for v in r["verdicts"][:2]]}, cap=8)
+    # residue grouping through the real pandas groupby / mmcif tokenizer: concretising mode (z3 AllSAT over small atom tables, native runs)
+    from vlib import allsat, e1
+    nat = 3 if tier == "quick" else 4
+    inputs, nq, dt = groups_inputs(nat)
+    rep.add(transitions=nq, solver_s=dt)
+    pt = allsat.run_family(f"groups_{nat}atoms", "harness.c15", "body_groups", inputs,
+                           [f"{nat} atoms; chain in {CH}, number in {NUM}, insertion code in {IC}; residues contiguous", "PDB and mmCIF text by an independent emitter",
+                            "parser.read_3d_structure vs parser_v2 + tertiary_v2.Structure.residues"], expected=None, chunksize=8)
+    e1.collect(rep, [pt], "harness.c15")
+    rep.add(functions_encoded=["tertiary_v2.Structure.residues (real pandas groupby, concretising mode)", "parser.read_3d_structure (natively, same tables)"])
     rep.add(functions_encoded=["parser.parse_pdb", "parser.parse_cif", "parser.filter_clashing_atoms", "parser_v2.parse_pdb_atoms", "parser_v2.parse_cif_atoms",
                                "tertiary.Residue3D.is_connected", "tertiary_v2.Residue.is_connected"],
             bounds={"PDB": "one ATOM/HETATM line inside one MODEL; symbolic name / altLoc / residue name / chain / number / insertion code / element / model",
                     "mmCIF": "one atom_site row; insertion-code cell over {?, ., A, B}", "connectivity": "O3'-P distance 0..6 A along two axes, any translation",
-                    "outside": "residue grouping by pandas groupby (tertiary_v2.Structure.residues), torsion magnitudes (covered by C18), blank chain ids"},
+                    "grouping": "every table of 3 (quick) / 4 atoms with chain, number, insertion code over 2x2x2 values, residues contiguous (z3 AllSAT, real pandas)",
+                    "outside": "torsion magnitudes (covered by C18), blank chain ids, tables with alternate locations"},
             engines=["E2 symx bounded strings / reals + z3"],
             rule="states = explored paths; transitions = solver queries; one agreement obligation per path",
             stubs=["pandas -> record-level stand-in", "IoAdapterPy -> one-row atom_site table", "tertiary_v2.Residue.find_atom -> returns the symbolic atom"])
-    rep.assume("partial: line / row level and connectivity kernels only", "chain identifiers are non-blank")
+    rep.assume("partial: line / row level, connectivity kernels and residue grouping on small tables", "chain identifiers are non-blank")
